@@ -590,6 +590,8 @@ def aggregate(pid, prop, tier, cfgs, results, known, nreg, t0, extra_cov=None):
 
 
 def write_evidence(pid, tier, cov, prop, wall, nviol):
+    if os.environ.get("VERIF_CONFIGS"):
+        return      # a debugging run restricted to some configurations does not describe the check: keep the evidence of the last full run
     os.makedirs(os.path.join(HERE, "evidence"), exist_ok=True)
     cov["evaluations"] = int(cov["evaluations"]); cov["distinct_nontrivial"] = int(cov["distinct_nontrivial"])
     evd = {"property_id": pid, "tier": tier, "seed": SEED, "level": "exploration", "coverage": cov,
